@@ -1,7 +1,9 @@
 package props
 
 import (
+	"fmt"
 	"go/token"
+	"strings"
 
 	"golang.org/x/tools/go/ssa"
 
@@ -145,6 +147,78 @@ func runC06Gaps2(c *eng.Ctx) {
 				c.OK(f, site, hasSecret[0].From.Instrs[len(hasSecret[0].From.Instrs)-1].Pos(), "every non-nil response with a secret crosses Register success, the registerLease test or HasPrefix(req.Path, \"sys/leases/renew\")")
 			}
 		}
+		// ---- C06.10 (exits) once a secret was generated, no exit abandons it: every return on the segment
+		// passes the registration attempt (a failed Register rolls back: C06.1) or a revocation of the secret
+		// at its backend — except across a tabled guard edge, each with its reason (seed C06-f exploits the
+		// first of them by making the router restore a path MatchingMountEntry does not resolve: C06.14)
+		c.Clause("R4", "C06.10")
+		if len(hasSecret) > 0 {
+			nilEdges := func(pat string) []eng.Edge {
+				var out []eng.Edge
+				for _, s := range nfPlain(nfSites(f, pat)) {
+					if v := eng.ResultValue(s.At.(ssa.CallInstruction), 0); v != nil && len(s.Effs) == 1 && s.Effs[0].Call.In == s.At {
+						out = append(out, eng.ValueNilEdges(v, true)...)
+					}
+				}
+				return out
+			}
+			var ttlFail []eng.Edge
+			for _, s := range nfPlain(nfSites(f, `^framework\.CalculateTTL$`)) {
+				ttlFail = append(ttlFail, nfFailEdgesOf(s)...)
+			}
+			tabled := []struct {
+				what, reason string
+				edges        []eng.Edge
+			}{
+				{"router.MatchingMountEntry(req.Path) == nil", "the mount the secret came from is no longer in the router (unmounted between routing and this lookup): nothing can be routed to it any more, unmounting revokes by prefix; the router hands back a path this lookup resolves (C06.14)", nilEdges(`routing\.\(\*Router\)\.MatchingMountEntry$`)},
+				{"router.MatchingBackend(req.Path) == nil", "KV arm only: key/value mounts issue no dynamic secret, nothing exists at a backend to revoke", nilEdges(`routing\.\(\*Router\)\.MatchingBackend$`)},
+				{"router.MatchingSystemView(req.Path) == nil", "as for the mount entry: the mount vanished under the request", nilEdges(`routing\.\(\*Router\)\.MatchingSystemView$`)},
+				{"framework.CalculateTTL failed", "with increment, period and explicit max 0 and a fresh start time it fails only for a mount whose max lease TTL is <= 0, which mount tuning refuses ('should never happen' guard)", ttlFail},
+				{"HasPrefix(req.Path, \"sys/leases/renew\")", "a renewed lease is already registered", eng.CondEdgesDeep(f, `^strings\.HasPrefix\(req\.Path, "sys/leases/renew"\)$`, true)},
+			}
+			var flagOff []eng.Edge
+			for _, b := range f.Blocks {
+				if ifi := eng.IfOf(b); ifi != nil {
+					if phi, ok := ifi.Cond.(*ssa.Phi); ok && eng.VarName(phi) == "registerLease" {
+						flagOff = append(flagOff, eng.Edge{From: b, Succ: 1})
+					}
+				}
+			}
+			tabled = append(tabled, struct {
+				what, reason string
+				edges        []eng.Edge
+			}{"registerLease == false", "cleared only on the KV arms (C06.2): no dynamic secret", flagOff})
+			var blocked []eng.Edge
+			for _, t := range tabled {
+				if len(t.edges) == 0 {
+					continue
+				}
+				blocked = append(blocked, t.edges...)
+				c.Exception("vault.(*Core).handleRequest: exit after a secret was generated across "+t.what, t.reason)
+			}
+			regS := nfSites(f, `vault\.\(\*ExpirationManager\)\.Register$`)
+			var revokeAt []ssa.Instruction
+			for _, s := range nfSites(f, `routing\.\(\*Router\)\.Route$`) {
+				all := len(s.Effs) > 0
+				for _, e := range s.Effs {
+					if ok, _ := nfAll(e.Call.Args[2], e.Fr, func(o eng.Origin) bool { return o.Kind == "call" && strings.HasSuffix(o.Desc, "logical.RevokeRequest") }); !ok {
+						all = false
+					}
+				}
+				if all {
+					revokeAt = append(revokeAt, s.At)
+				}
+			}
+			site := "on{resp.Secret != nil} every exit registers or revokes the secret"
+			isRet := func(in ssa.Instruction) bool { r, ok := in.(*ssa.Return); return ok && r.Block().Comment != "recover" }
+			if !c.Floor(f, "expiration.Register on the secret segment", len(regS), 1) {
+				// reported by the floor
+			} else if h := eng.Reach(eng.Query{Fn: f, StartEdges: hasSecret, Blocked: blocked, Barriers: append(nfAts(regS), revokeAt...), Target: isRet}); h != nil {
+				c.Violation(f, site, h.Instr.Pos(), "after the backend generated a secret handleRequest can return without attempting expiration.Register and without revoking the secret at its backend: the credential stays live with no lease (the exit is not one of the tabled ones)", h.Witness)
+			} else {
+				c.OK(f, site, hasSecret[0].From.Instrs[len(hasSecret[0].From.Instrs)-1].Pos(), fmt.Sprintf("every return behind resp.Secret != nil passes expiration.Register or a routed RevokeRequest, or crosses one of %d tabled guard edges", len(blocked)))
+			}
+		}
 		// ---- C06.11 a service token created through auth/token/ leaves only across RegisterAuth success
 		c.Clause("R2", "C06.11")
 		isService := eng.CondEdges(f, `\.Auth\.TokenType == `+service+`$`, true)
@@ -157,6 +231,9 @@ func runC06Gaps2(c *eng.Ctx) {
 			}
 		}
 	}
+
+	// ---- C06.14 the router hands the request back with the path it matched the mount by
+	routerRestoresAdjustedPath(c, "C06.14")
 
 	// ---- C06.12 the lease of a persisted token is persisted: the persist flag handed to
 	// expiration.RegisterAuth is the one the token was created with (Core.RegisterAuth) or constant true
@@ -204,4 +281,114 @@ func c06CellRead(v ssa.Value, fr *nfFrame) *ssa.Alloc {
 		}
 	}
 	return nil
+}
+
+// routerRestoresAdjustedPath: Router.routeCommon rewrites req.Path for the
+// backend and restores it in a deferred closure. The callers go on using the
+// restored path (Core.handleRequest: MatchingMountEntry / MatchingSystemView /
+// Register(req.Path) after a secret was issued), so the path restored must be
+// the one the mount was matched by — req.Path AFTER the "foo means foo/"
+// adjustment was stored into it: the snapshot the closure writes back is a read
+// of req.Path that lies behind that store on every path (or is the adjusted
+// value itself). Shared clause (C06; the router also serves C02 / C12).
+func routerRestoresAdjustedPath(c *eng.Ctx, clause string) {
+	f := c.Fn("routing.(*Router).routeCommon")
+	pathF := c.P.Field("logical.Request.Path")
+	if f == nil {
+		return
+	}
+	if pathF == nil {
+		c.Unresolved("logical.Request.Path")
+		return
+	}
+	c.Clause("R5", clause)
+	reqIdx := nfParamIndex(f, "req")
+	isReq := func(base ssa.Value, fr *nfFrame) bool {
+		ok, _ := nfIsParamOf(base, fr, f, reqIdx)
+		return ok
+	}
+	isSlash := func(o eng.Origin) bool { return o.Kind == "const" && o.Desc == `"/"` }
+	isPathRead := func(o eng.Origin, fr *nfFrame) bool {
+		base, is := nfFieldOf(o, pathF)
+		return is && isReq(base, fr)
+	}
+	// the adjustment: req.Path = <req.Path, possibly with "/" appended>
+	var adj []ssa.Instruction
+	adjSet := map[ssa.Value]bool{}
+	for _, st := range nfFieldStores(f, pathF) {
+		if st.Fn != f || !isReq(st.Base, nil) {
+			continue
+		}
+		os := nfOrigins(st.St.Val, nil)
+		slash, only := false, len(os) > 0
+		for _, o := range os {
+			if isSlash(o) {
+				slash = true
+			} else if !isPathRead(o, nil) {
+				only = false
+			}
+		}
+		if slash && only {
+			adj = append(adj, st.St)
+			for _, o := range os {
+				adjSet[o.Val] = true
+			}
+		}
+	}
+	if !c.Floor(f, "store of the slash-adjusted path into req.Path", len(adj), 1) {
+		return
+	}
+	n := 0
+	for _, in := range eng.Instrs(f, func(in ssa.Instruction) bool { _, ok := in.(*ssa.Defer); return ok }) {
+		clo, _ := nfFuncValue(in.(*ssa.Defer).Call.Value)
+		if clo == nil || clo.Parent() != f {
+			continue
+		}
+		fr := &nfFrame{call: in.(ssa.CallInstruction)}
+		for _, st := range nfFieldStores(clo, pathF) {
+			if st.Fn != clo || !isReq(st.Base, fr) {
+				continue
+			}
+			n++
+			site := "path restored into the request = the path the mount was matched by"
+			os := nfOrigins(st.St.Val, fr)
+			same := len(os) > 0
+			bad := ""
+			// the adjusted value itself: the same origins, the appended "/" included
+			got := map[ssa.Value]bool{}
+			for _, o := range os {
+				got[o.Val] = true
+				if !adjSet[o.Val] {
+					same = false
+				}
+			}
+			for v := range adjSet {
+				if !got[v] {
+					same = false
+				}
+			}
+			if !same {
+				for _, o := range os {
+					ld, isInstr := o.Val.(ssa.Instruction)
+					switch {
+					case isSlash(o):
+					case isPathRead(o, nil) && isInstr && ld.Parent() == f:
+						if h := eng.Reach(eng.Query{Fn: f, Barriers: adj, Target: func(x ssa.Instruction) bool { return x == ld }}); h != nil {
+							bad = "a read of req.Path taken before the adjusted path was stored into it (" + c.P.Pos(ld.Pos()) + ")"
+						}
+					default:
+						bad = o.Kind + ":" + o.Desc
+					}
+				}
+			}
+			if len(os) == 0 {
+				c.Undecided(clo, site, st.St.Pos(), "no origin found for the restored path")
+			} else if bad != "" {
+				c.Violation(clo, site, st.St.Pos(), "the deferred reset of routeCommon writes back "+bad+": a request addressed to the bare mount name (\"foo\" for mount \"foo/\") reaches the backend through the adjusted path but returns to its caller with the unadjusted one; Core.handleRequest then looks the mount up by that path (MatchingMountEntry does not retry with a slash), finds none and returns an internal error BEFORE expiration.Register: a freshly issued secret stays live at its backend without a lease", nil)
+			} else {
+				c.OK(clo, site, st.St.Pos(), "the snapshot written back is taken after req.Path = adjustedPath (or is the adjusted value)")
+			}
+		}
+	}
+	c.Floor(f, "restore of req.Path in the deferred reset", n, 1)
 }
